@@ -104,20 +104,20 @@ func (t *PageTrace) Coq() string {
 	for i, s := range t.Steps {
 		rin := id(s.ResumeIn)
 		rout := id(s.ResumeOut)
-		steps[i] = fmt.Sprintf("PStep %v %v %d %d %d %d %d %d %d", s.Blank, s.Right, t.brkCode(s.BreakIn), rin, rout,
-			t.brkCode(s.BreakOut), s.FnIn, s.FnOut, s.Broken)
+		steps[i] = fmt.Sprintf("PStep %v %v %d %d %d %d %d %d %d %d %d", s.Blank, s.Right, t.brkCode(s.BreakIn), rin, rout,
+			t.brkCode(s.BreakOut), s.FnIn, s.FnOut, s.Broken, s.UnplacedIn, s.UnplacedOut)
 	}
 	return fmt.Sprintf("CPages [%s] %d %v", strings.Join(steps, "; "), t.Footnotes, t.Truncated)
 }
 
 // Verdict is the harness-side reading of a trace, used for trigger tags only (the
 // authoritative check is Check.C01.replay): "stuck-footnote" a blank page that
-// received reported footnotes reported as many again, "stuck-resume" a page with content
+// received reported footnotes placed none (the footnotes not placed yet did not decrease), "stuck-resume" a page with content
 // returned a resume point seen before, else "progress".
 func (t *PageTrace) Verdict() string {
 	seen := map[string]bool{}
 	for _, s := range t.Steps {
-		if s.Blank && (s.FnOut > s.FnIn || s.FnIn > 0 && s.FnOut >= s.FnIn) {
+		if s.Blank && (s.FnIn == 0 && s.FnOut > 0 || s.FnIn > 0 && s.UnplacedOut >= s.UnplacedIn) {
 			return "stuck-footnote"
 		}
 		if !s.Blank && s.ResumeOut != "" {
@@ -134,6 +134,9 @@ func (t *PageTrace) Verdict() string {
 type countWriter struct{ rounds, pages int32 }
 
 func (c *countWriter) Write(p []byte) (int, error) {
+	if progressEcho {
+		os.Stderr.Write(p) // triage aid (VERIF_PROGRESS=1 on a worker run by hand)
+	}
 	if bytes.Contains(p, []byte("Repagination #")) {
 		atomic.AddInt32(&c.rounds, 1)
 	} else if bytes.Contains(p, []byte("Creating layout - Page")) {
@@ -141,6 +144,8 @@ func (c *countWriter) Write(p []byte) (int, error) {
 	}
 	return len(p), nil
 }
+
+var progressEcho = os.Getenv("VERIF_PROGRESS") == "1"
 
 var (
 	resOnce sync.Once
